@@ -10,11 +10,14 @@ VERIF = HERE.parent
 BASE = json.load(open("/root/.vp/BASELINE.json"))["cmd"].replace("--junitxml=<file>", "").strip()
 
 props = [json.loads(l) for l in open(VERIF / "properties.jsonl")]
+READY = None
+if (HERE / "ready.txt").exists():
+    READY = set((HERE / "ready.txt").read_text().split())
 checks, na = [], []
 for p in props:
     pid = p["id"]
     f = HERE / "props" / f"{pid}.py"
-    if not f.exists():
+    if not f.exists() or (READY is not None and pid not in READY):
         na.append({"property_id": pid, "reason": "check not built yet in this round (planned: see DESIGN.md section 6); nothing is claimed for it"})
         continue
     mod = importlib.import_module(f"props.{pid}")
